@@ -84,8 +84,11 @@ Definition c_template (t : template) : option construct :=
   | _, _, _ => None       (* unsupported for the dialect / not an expression of the engine grammar / aggregate *)
   end.
 
+Local Open Scope N_scope.
+Definition n_concat : str := [115;116;100;46;99;111;110;99;97;116].   (* std.concat: process_concat, not modelled *)
+Local Close Scope N_scope.
 Definition lookup_binop (name : str) : option sqlbin :=
-  option_map snd (find (fun p => leqb (fst p) name) operator_from_name).
+  if leqb name n_concat then None else option_map snd (find (fun p => leqb (fst p) name) operator_from_name).
 
 (* which construct, applied to which RQ arguments (translate_expr's case analysis, in its order) *)
 Definition select (dialect : str) (r : rexpr) : option (construct * list rexpr) :=
